@@ -36,6 +36,7 @@ fn c03_families(format: Format, tier: Tier) -> Vec<Family> {
             endings: &[Endings::Lf, Endings::Crlf],
         }),
         Family::Recs(recs),
+        Family::Recs(long_files(format, true).into_iter().step_by(if tier == Tier::Quick { 5 } else { 1 }).collect()),
     ]
 }
 
